@@ -43,6 +43,10 @@ void PolarGrid::RadialAnisotropicDivision(std::vector<double>& r_temp, const dou
     }
 
     se     = floor(nr * percentage) - n_elems_refined / 2;
+    // The refinement window must not start before the first node (refinement radius close to R0).
+    if (se < 0) {
+        se = 0;
+    }
     int ee = se + n_elems_refined;
     // takeout
     int st = ceil((double)n_elems_refined / 4.0 + 1) - 1;
